@@ -74,6 +74,8 @@ typedef struct hist_s {
   uint64_t *listed_clk;    /* table number -> clock of its first appearance in leveldb.sstables */
   size_t listed_cap;
   uint64_t unlinks_seen, unlinks_vs_iters;
+  /* key locality: writes concentrate in a sliding window of the universe (narrow files, chained overlaps) */
+  int loc_width, loc_center, loc_until;
   /* stats */
   int flushes, compactions, reopens, fullchecks, multi_level_checks;
 } hist_t;
@@ -85,6 +87,26 @@ static const char *focus_name[] = {"c01", "c06", "c07", "c13", "c14"};
 
 static ldb_slice_t row_key(const hist_t *H, int row) {
   return ldb_slice(H->m.rows[row].key, H->m.rows[row].klen);
+}
+
+/* row for a write/read: uniform, or inside the current locality window */
+static int pick_row(hist_t *H) {
+  int n = (int)H->m.nrows;
+  if (H->loc_width > 0 && vr_chance(&H->r, 850)) {
+    int r;
+    if (H->step >= H->loc_until) {
+      H->loc_center = vr_chance(&H->r, 300) ? (int)vr_uniform(&H->r, (uint32_t)n)
+                                            : H->loc_center + (int)vr_uniform(&H->r, (uint32_t)H->loc_width * 2 + 1) - H->loc_width;
+      if (H->loc_center < 0) H->loc_center = 0;
+      if (H->loc_center >= n) H->loc_center = n - 1;
+      H->loc_until = H->step + 10 + (int)vr_uniform(&H->r, 50);
+    }
+    r = H->loc_center + (int)vr_uniform(&H->r, (uint32_t)H->loc_width + 1) - H->loc_width / 2;
+    if (r < 0) r = 0;
+    if (r >= n) r = n - 1;
+    return r;
+  }
+  return (int)vr_uniform(&H->r, (uint32_t)n);
 }
 
 static void describe(hist_t *H, char *buf, size_t n) {
@@ -719,7 +741,7 @@ static void do_batch(hist_t *H) {
   int hotrow = (int)vr_uniform(&H->r, (uint32_t)H->m.nrows);
   if (n > 200) n = 200;
   for (i = 0; i < n; i++) {
-    int row = vr_chance(&H->r, 150) ? hotrow : (int)vr_uniform(&H->r, (uint32_t)H->m.nrows);
+    int row = vr_chance(&H->r, 150) ? hotrow : pick_row(H);
     ldb_slice_t k = row_key(H, row);
     ups[i].row = row;
     if (vr_chance(&H->r, 200)) {
@@ -964,6 +986,61 @@ static void template_overlap(hist_t *H) {
   vh_count("template_T3", 1);
 }
 
+/* T4: a chain of partially overlapping level-0 files above two levels of base files, then a compaction
+   restricted to one end of the chain (every file that shares keys with a moved file must move too) */
+static void template_l0_chain(hist_t *H) {
+  int n = (int)H->m.nrows, i, g, nf, mirror = vr_chance(&H->r, 300);
+  int pos[8], lo, hi;
+  ldb_slice_t kb, ke;
+  if (n < 24) return;
+  /* base: two disjoint groups, each flushed twice -> two files in a deep level and two above them */
+  for (g = 0; g < 2; g++) {
+    int a = g == 0 ? 0 : n / 3 + 1, b = g == 0 ? n / 3 : n - 1, rep;
+    for (rep = 0; rep < 2; rep++) {
+      do_put(H, a, 20 + vr_uniform(&H->r, 200), 0);
+      do_put(H, b, 20 + vr_uniform(&H->r, 200), 0);
+      if (vr_chance(&H->r, 500)) do_put(H, a + (b - a) / 2, 30, 0);
+      expect_ok(H, ldb_test_compact_memtable(H->h.db), "flush(T4 base)");
+      H->flushes++;
+    }
+  }
+  /* chain of 3 files over positions q0 < q1 < ... < q7: file f writes q[2f] .. q[2f+3], so neighbours share
+     two keys and the two end files do not overlap; the lowest file straddles the boundary between the two
+     base groups, so including it in a compaction also widens the next level's inputs */
+  nf = 3;
+  {
+    int split = n / 3, hi_lo = split + 2, hi_n = n - 3 - hi_lo;
+    pos[0] = 2 + (int)vr_uniform(&H->r, (uint32_t)(split > 6 ? split - 5 : 1));
+    pos[1] = pos[0] + 1 + (int)vr_uniform(&H->r, 2);
+    if (pos[1] >= split) pos[1] = split - 1;
+    if (pos[1] <= pos[0]) pos[1] = pos[0] + 1;
+    for (i = 2; i < 8; i++) pos[i] = hi_lo + hi_n * (i - 2) / 6 + (int)vr_uniform(&H->r, (uint32_t)(hi_n / 12 + 1));
+    for (i = 3; i < 8; i++) if (pos[i] <= pos[i - 1]) pos[i] = pos[i - 1] + 1;
+    if (pos[7] >= n) return;
+  }
+  for (i = 0; i < nf; i++) {
+    int f = mirror ? nf - 1 - i : i, j;     /* oldest file at the low or at the high end */
+    for (j = 0; j < 4; j++) do_put(H, pos[2 * f + j], 10 + vr_uniform(&H->r, 300), 0);
+    if (vr_chance(&H->r, 300)) do_del(H, pos[2 * f + 1], 0);
+    if (H->nhot < 7) { H->hot[H->nhot++] = pos[2 * f + 2]; }
+    expect_ok(H, ldb_test_compact_memtable(H->h.db), "flush(T4 chain)");
+    H->flushes++;
+  }
+  full_check(H, "T4-built");
+  /* compact only one end of the chain */
+  if (vr_chance(&H->r, 650)) { lo = pos[6]; hi = pos[7]; } else { lo = pos[0]; hi = pos[1]; }
+  kb = row_key(H, lo); ke = row_key(H, hi);
+  shadow_start(H);
+  if (vr_chance(&H->r, 500)) ldb_compact(H->h.db, &kb, &ke);
+  else ldb_test_compact_range(H->h.db, 0, &kb, &ke);
+  shadow_stop(H);
+  H->compactions++;
+  ldb_verif_wait_idle(H->h.db);
+  layoutmon_check(H->h.db, &H->h, "T4-compacted", 0);
+  full_check(H, "T4-compacted");
+  vh_count("template_T4", 1);
+}
+
 /* ------------------------------------------------------------------ */
 /* one history */
 
@@ -983,7 +1060,7 @@ static void run_case(uint64_t seed, int caseidx, int focus, const char *base, in
   H->caseidx = caseidx;
   vr_seed(&H->r, seed * 1000003ULL + (uint64_t)caseidx * 7919ULL + (uint64_t)focus * 104729ULL);
   cfg_random(&cfg, &H->r);
-  H->tmpl = caseidx % 4;   /* 0 none, 1 straddle, 2 tombstone, 3 overlap */
+  H->tmpl = caseidx % 5;   /* 0 none, 1 straddle, 2 tombstone, 3 overlap, 4 level-0 chain */
   if (H->tmpl == 1) cfg.max_file_size = 1 << 20;
   H->max_snaps = focus == F_C06 ? MAX_SNAPS : 3;
   switch (focus) {
@@ -996,6 +1073,10 @@ static void run_case(uint64_t seed, int caseidx, int focus, const char *base, in
   nkeys = 40 + (int)vr_uniform(&H->r, 360);
   m_init(&H->m, cfg.cmp_kind);
   universe_generate(&H->m, &H->r, nkeys);
+  if (vr_chance(&H->r, 500)) {
+    H->loc_width = 2 + (int)vr_uniform(&H->r, (uint32_t)(H->m.nrows / 6 + 1));
+    H->loc_center = (int)vr_uniform(&H->r, (uint32_t)H->m.nrows);
+  }
   H->vbuf = malloc(MAX_VAL);
   H->steps = 300 + (int)vr_uniform(&H->r, (uint32_t)(steps_max > 300 ? steps_max - 300 : 1));
   snprintf(dir, sizeof(dir), "%s/case-%d", base, caseidx);
@@ -1015,13 +1096,14 @@ static void run_case(uint64_t seed, int caseidx, int focus, const char *base, in
   if (H->tmpl == 1 && (focus == F_C01 || focus == F_C14 || focus == F_C06 || focus == F_C13)) template_straddle(H);
   else if (H->tmpl == 2) template_tombstone(H);
   else if (H->tmpl == 3) template_overlap(H);
+  else if (H->tmpl == 4) template_l0_chain(H);
 
   total = w.put + w.del + w.batch + w.get + w.flush + w.crange + w.cmanual + w.call + w.reopen + w.snap +
           w.unsnap + w.iopen + w.iclose + w.idrive + w.approx + w.prop;
 
   for (H->step = 0; H->step < H->steps; H->step++) {
     int c = (int)vr_uniform(&H->r, (uint32_t)total);
-    int row = (int)vr_uniform(&H->r, (uint32_t)H->m.nrows);
+    int row = pick_row(H);
     if (H->nhot > 0 && vr_chance(&H->r, 60)) row = H->hot[vr_uniform(&H->r, (uint32_t)H->nhot)];
 #define TAKE(x) (c < (x) ? 1 : (c -= (x), 0))
     if (TAKE(w.put)) {
